@@ -463,7 +463,7 @@ func runSync(cc *run.Case, sc syncScenario, raceOnly bool) (map[string][]int, bo
 func c12(ctx *run.Ctx, raceOnly bool) {
 	targets := []string{"memory", "filesystem", "sql"}
 	// --- fault enumeration: ALL subsets F1, F2 for <= 4 assets ---
-	nEnum := ctx.Pick(3, 12)
+	nEnum := ctx.Pick(3, 40)
 	if raceOnly {
 		nEnum = ctx.Pick(1, 3)
 	}
@@ -495,7 +495,7 @@ func c12(ctx *run.Ctx, raceOnly bool) {
 		}
 	}
 	// --- random larger scenarios, worker independence ---
-	nRand := ctx.Pick(48, 400)
+	nRand := ctx.Pick(48, 2000)
 	if raceOnly {
 		nRand = ctx.Pick(30, 120)
 	}
